@@ -178,6 +178,8 @@ def gen_job(rng):
         job['no_dist_info'] = True
     if rng.random() < 0.1:
         job['stdio'] = rng.choice(['none', 'none', 'closed', 'ascii'])
+    if rng.random() < 0.15:
+        job['prestate'] = sorted(rng.sample(PRESTATES, rng.randint(1, 3)))
     return job
 
 
@@ -346,6 +348,8 @@ def run_chunk(task, agg):
             agg.count('fault:missing-module:' + b)
         if job.get('stdio'):
             agg.count('fault:standard-streams-' + job['stdio'])
+        for ps in set(job.get('prestate') or ()):
+            agg.count('fault:non-default-interpreter-state:' + ps)
         if job.get('no_dist_info'):
             agg.count('fault:no-distribution-metadata')
             if res and res.get('dist_info_lookups'):
@@ -388,6 +392,8 @@ def run_chunk(task, agg):
                     agg.add_to_set('probe:' + pk, ph)
 
 
+PRESTATES = ['gc_off', 'gc_off', 'gc_threshold', 'reclimit', 'switchinterval', 'excepthook', 'unraisablehook', 'logging_disable',
+             'signal', 'dont_write_bytecode']
 ENV_VALUES = ['', '0', 'unlimited', '1', '-1']
 
 
@@ -453,7 +459,8 @@ def describe(rec):
     lines.append('fresh interpreter: ' + ' '.join([PY] + j['switches']) + f"   absent modules: {j['blocked'] or 'none'}"
                  + ('   (no installed distribution metadata for soupsieve)' if j.get('no_dist_info') else '')
                  + (f"   environment: {j['env']}" if j.get('env') else '')
-                 + (f"   sys.stdout/sys.stderr: {j['stdio']}" if j.get('stdio') else ''))
+                 + (f"   sys.stdout/sys.stderr: {j['stdio']}" if j.get('stdio') else '')
+                 + (f"   interpreter configured beforehand: {j['prestate']}" if j.get('prestate') else ''))
     for i, s in enumerate(j['program']):
         lines.append(f'  {i}: {s}')
     lines.append('probe: ' + json.dumps(j['probe'])[:400])
@@ -511,6 +518,10 @@ def minimise_record(rec, budget_n=40):
             c = json.loads(json.dumps(job))
             c.pop('stdio')
             cands.append(c)
+        for i in range(len(job.get('prestate') or ())):
+            c = json.loads(json.dumps(job))
+            del c['prestate'][i]
+            cands.append(c)
         if job['probe']['parser'] != 'html.parser' and not job['probe'].get('namespaces'):
             c = json.loads(json.dumps(job))
             c['probe']['parser'] = 'html.parser'
@@ -559,14 +570,20 @@ def evidence(agg, info, plan_, tier):
         'distinct_initialisation_orders': len(agg.sets.get('init_orders', ())),
         'first_module_initialised': {k[18:]: v for k, v in c.items() if k.startswith('first_initialised:')},
         'faults_configured': {k[6:]: v for k, v in c.items() if k.startswith('fault:')},
-        'faults_fired': {k[12:]: v for k, v in c.items() if k.startswith('fault_fired:')},
+        'faults_fired': dict({k[12:]: v for k, v in c.items() if k.startswith('fault_fired:')},
+                             **{k[6:]: v for k, v in c.items() if k.startswith(('fault:standard-streams', 'fault:non-default',
+                                                                                   'fault:environment'))}),
         'interpreter_switches': {k[9:]: v for k, v in c.items() if k.startswith('switches:')},
         'parsers_probed': {k[7:]: v for k, v in c.items() if k.startswith('parser:')},
         'probe_groups_compared_across_programs': len(probes_groups),
         'probe_groups_with_disagreement': sum(1 for v in probes_groups.values() if v > 1),
         'simulated_time': 'none: nothing in the system reads a clock',
         'components_real': ['CPython import system', 'soupsieve (from the working tree)', 'bs4 and the parsers'],
-        'components_stubbed': ['availability of lxml / html5lib / chardet / charset_normalizer / cchardet (meta_path finder)'],
+        'components_stubbed': ['availability of lxml / html5lib / chardet / charset_normalizer / cchardet (meta_path finder)',
+                               'installed distribution metadata of soupsieve (importlib.metadata lookup made to fail)',
+                               'sys.stdout / sys.stderr (None, closed or ASCII-only objects before the import program)',
+                               'initial interpreter configuration (gc, recursion limit, switch interval, hooks, signal handler)',
+                               'environment variables the package is seen reading (set to awkward values in follow-up runs)'],
         'budget_s': plan_['budget_s'],
         'tasks_cancelled_by_deadline': info['tasks_cancelled'],
     }
